@@ -14,6 +14,7 @@ from nengo_spa.ast.expr_tree import (
     UnaryOperator,
     limit_str_length,
 )
+from nengo_spa.exceptions import SpaTypeError
 from nengo_spa.typechecks import is_array, is_array_like, is_number
 from nengo_spa.types import TAnyVocab, TScalar, TVocabulary
 
@@ -246,6 +247,7 @@ class SemanticPointer(Fixed):
         if vocab is None:
             self._ensure_algebra_match(other)
         other_pointer = other.evaluate()
+        self._ensure_length_match(other_pointer.v)
         a, b = self.v, other_pointer.v
         if swap:
             a, b = b, a
@@ -513,7 +515,15 @@ class SemanticPointer(Fixed):
             if infer_types(self, other) == TAnyVocab:
                 self._ensure_algebra_match(other)
             other = other.evaluate().v
+        self._ensure_length_match(other)
         return np.sum((self.v - other) ** 2) / len(self.v)
+
+    def _ensure_length_match(self, other):
+        """Check the dimensionality of *other* (NumPy would broadcast length 1)."""
+        if np.ndim(other) > 0 and len(other) != len(self.v):
+            raise SpaTypeError(
+                f"Dimensionality mismatch: {len(self.v)} and {len(other)}"
+            )
 
     def _ensure_algebra_match(self, other):
         """
